@@ -10,6 +10,7 @@ import (
 	"net/http"
 	"net/http/httptest"
 
+	"github.com/99designs/gqlgen/graphql"
 	"github.com/99designs/gqlgen/graphql/handler"
 	"github.com/99designs/gqlgen/graphql/handler/extension"
 	"github.com/99designs/gqlgen/graphql/handler/transport"
@@ -30,17 +31,27 @@ func loadSchema(sdl string) (*ast.Schema, error) {
 // newServer builds the generated probe server around an injected schema. The probe's own
 // schema is `type Query { ping: String }`; introspection reads only the injected ast.Schema.
 func newServer(schema *ast.Schema, introspectionEnabled bool) *handler.Server {
+	srv := newServerOn(newExecutableSchema(schema))
+	if introspectionEnabled {
+		srv.Use(extension.Introspection{})
+	}
+	return srv
+}
+
+// newExecutableSchema builds the generated executable schema; a nil schema means the probe's
+// own embedded one (the federation probe, whose _service field serves the embedded sources).
+func newExecutableSchema(schema *ast.Schema) graphql.ExecutableSchema {
 	stub := &graph.Stub{}
 	stub.QueryResolver.Ping = func(ctx context.Context) (*string, error) {
 		s := "pong"
 		return &s, nil
 	}
-	es := graph.NewExecutableSchema(graph.Config{Schema: schema, Resolvers: stub})
+	return graph.NewExecutableSchema(graph.Config{Schema: schema, Resolvers: stub})
+}
+
+func newServerOn(es graphql.ExecutableSchema) *handler.Server {
 	srv := handler.New(es)
 	srv.AddTransport(transport.POST{})
-	if introspectionEnabled {
-		srv.Use(extension.Introspection{})
-	}
 	return srv
 }
 
@@ -58,17 +69,20 @@ type gqlResponse struct {
 }
 
 // postRaw sends one POST request through the real handler and returns the response bytes.
-func postRaw(srv *handler.Server, query string, variables map[string]any) ([]byte, int) {
+func postRaw(srv *handler.Server, query string, variables map[string]any, headers ...string) ([]byte, int) {
 	body, _ := json.Marshal(map[string]any{"query": query, "variables": variables})
 	req := httptest.NewRequest(http.MethodPost, "/query", bytes.NewReader(body))
 	req.Header.Set("Content-Type", "application/json")
+	for i := 0; i+1 < len(headers); i += 2 {
+		req.Header.Set(headers[i], headers[i+1])
+	}
 	rec := httptest.NewRecorder()
 	srv.ServeHTTP(rec, req)
 	return rec.Body.Bytes(), rec.Code
 }
 
-func post(srv *handler.Server, query string, variables map[string]any) (*gqlResponse, error) {
-	raw, code := postRaw(srv, query, variables)
+func post(srv *handler.Server, query string, variables map[string]any, headers ...string) (*gqlResponse, error) {
+	raw, code := postRaw(srv, query, variables, headers...)
 	out := &gqlResponse{Raw: raw, Status: code}
 	if err := json.Unmarshal(out.Raw, out); err != nil {
 		return out, fmt.Errorf("response is not JSON: %v: %.200s", err, out.Raw)
